@@ -29,7 +29,14 @@ NODEFECT = {"k": "none", "c": 0, "e": 0, "t": 0}
 NOX = {"p": "", "d": ABS, "comma": True}
 # model words that stand for strings with characters that matter to template engines / HTML escaping (the TLC side keeps
 # plain words); applied to every name-like string that is rendered and inverted on every projected string
-REAL = {"n2": "tom & <jerry>'s", "n3": "<logs-{now/d}>", "sup-task": "a<b>&'c'", "b": "b&b"}
+REAL = {
+    "n2": "tom & <jerry>'s",
+    "n3": "<logs-{now/d}>",
+    "sup-task": "a<b>&'c'",
+    "b": "b&b",
+    "u1": "https://u1.example.org/corpora/data",
+    "u2": "http://u2.example.org/x?a=1&b=2",
+}
 MODEL = {v: k for k, v in REAL.items()}
 TPL_SECTION = {"composable": "composable-templates", "component": "component-templates", "templates": "templates"}
 
@@ -340,6 +347,9 @@ def doc_file_name(doc):
 
 
 def _collect(pattern, style):
+    if style.get("collect") == "single":
+        # single quotes: not recognised by the loader's textual pre-pass, the Jinja macro of rally.helpers includes the part
+        return Raw("{{ rally.collect(parts='%s') }}" % pattern)
     return Raw('{{rally.collect(parts="%s")}}' % pattern) if style.get("collect") == "tight" else Raw('{{ rally.collect(parts="%s") }}' % pattern)
 
 
@@ -358,7 +368,7 @@ def render(F, root, style=None):
         dpath = os.path.join(root, sub)
         if os.path.isdir(dpath):
             for fn in os.listdir(dpath):
-                if fn.endswith(".json"):
+                if fn.endswith(".json") or fn == "macros.j2":
                     os.unlink(os.path.join(dpath, fn))
         else:
             os.makedirs(dpath)
@@ -395,6 +405,8 @@ def render(F, root, style=None):
                 o = {"source-file": doc_file_name(doc), "document-count": _num(doc["count"])}
                 if doc["tidx"]:
                     o["target-index"] = doc["tidx"]
+                if doc["burl"]:
+                    o["base-url"] = _real(doc["burl"])
                 if doc["tds"]:
                     o["target-data-stream"] = doc["tds"]
                 if doc["iaamd"] != "abs":
@@ -408,6 +420,8 @@ def render(F, root, style=None):
                         o["document-count"] = "10"
                 docs.append(o)
             co = {"name": _real(k["name"]), "documents": docs}
+            if k["burl"]:
+                co["base-url"] = _real(k["burl"])
             if k["tidx"]:
                 co["target-index"] = k["tidx"]
             if k["tds"]:
@@ -434,6 +448,10 @@ def render(F, root, style=None):
             if _is_set(op["bulk"]):
                 o["bulk-size"] = _num(op["bulk"])
             _macro(o, op["xp"])
+            if oi == 0 and _is_set(F["mac"]):
+                # a value written by a macro of an imported macro file
+                o["macro-setting"] = Raw("{{ m.val() }}")
+                files["macros.j2"] = "{%% macro val() -%%}%s{%%- endmacro %%}\n" % _num(F["mac"])
             if d["c"] == oi + 1:
                 if d["k"] == "opNoName":
                     del o["name"]
@@ -476,6 +494,8 @@ def render(F, root, style=None):
             else:
                 top["challenges"] = chs
     text = ser.dump(top)
+    if F["ops"] and _is_set(F["mac"]):
+        text = '{% import "macros.j2" as m %}\n' + text
     if F["parts"] or uses_macro(F):
         text = '{% import "rally.helpers" as rally with context %}\n' + text
     files["track.json"] = text + "\n"
@@ -632,6 +652,7 @@ def _proj_task(t):
     core = {
         "name": _s(t.name),
         "op": {"name": _s(op.name), "type": _s(op.type), "bulk": _i(op.params.get("bulk-size") if isinstance(op.params, dict) else -99),
+               "xm": _i(op.params.get("macro-setting")),
                "xs": _x(op.params[XSETTING]) if XSETTING in op.params else ABS,
                "xb": _x(op.params["body"][XSETTING]) if isinstance(op.params.get("body"), dict) and XSETTING in op.params["body"] else ABS},
         "clients": _i(t.clients),
@@ -685,6 +706,7 @@ def project(t):
                     "arch": arch,
                     "count": _i(doc.number_of_documents),
                     "iaamd": doc.includes_action_and_meta_data is True,
+                    "burl": _s(doc.base_url),
                     "tidx": _s(doc.target_index),
                     "tds": _s(doc.target_data_stream),
                 }
@@ -800,7 +822,7 @@ def _rand_task(rnd, types, opnames, mode, par_mode, noisy):
 def random_file(rnd, types):
     """A random abstract file; mostly valid structure, then with probability 1/2 one random small mutation."""
     noisy = rnd.choice([0.0, 0.0, 0.1, 0.3])
-    F = {"form": rnd.choice(["schedule", "challenge", "challenges", "challenges"]), "chals": [], "ops": [], "corpora": [], "indices": [], "streams": [], "supN": [], "supS": [], "parts": [], "refs": [], "tight": False, "defect": dict(NODEFECT), "ibody": dict(NOVAL), "tkind": "", "tbody": dict(NOVAL)}
+    F = {"form": rnd.choice(["schedule", "challenge", "challenges", "challenges"]), "chals": [], "ops": [], "corpora": [], "indices": [], "streams": [], "supN": [], "supS": [], "parts": [], "refs": [], "tight": False, "squote": False, "mac": dict(NOVAL), "defect": dict(NODEFECT), "ibody": dict(NOVAL), "tkind": "", "tbody": dict(NOVAL)}
     opnames = []
     for _ in range(rnd.choice([0, 1, 2, 3])):
         name = rnd.choice(NAMES[:5]) if rnd.random() < noisy else "op%d" % (len(opnames) + 1)
@@ -864,8 +886,8 @@ def random_file(rnd, types):
                     tds = "ds1"
             if iaamd == "abs" and rnd.random() < 0.05:
                 iaamd = "false"
-            docs.append({"base": "docs%d%d" % (ki, di), "ext": rnd.choice(["", "bz2", "gz"]), "count": _val(rnd, [1, 1000, 2000000000], NPARAMS), "tidx": tidx, "tds": tds, "iaamd": iaamd})
-        F["corpora"].append({"name": rnd.choice(["k1", "k2"]) if rnd.random() < noisy else "corpus%d" % ki, "tidx": ctidx, "tds": ctds, "iaamd": ciaamd, "docs": docs})
+            docs.append({"base": "docs%d%d" % (ki, di), "ext": rnd.choice(["", "bz2", "gz"]), "count": _val(rnd, [1, 1000, 2000000000], NPARAMS), "tidx": tidx, "tds": tds, "iaamd": iaamd, "burl": rnd.choice(["u1", "u2"]) if rnd.random() < 0.3 else ""})
+        F["corpora"].append({"name": rnd.choice(["k1", "k2"]) if rnd.random() < noisy else "corpus%d" % ki, "tidx": ctidx, "tds": ctds, "iaamd": ciaamd, "burl": rnd.choice(["u1", "u2"]) if rnd.random() < 0.3 else "", "docs": docs})
     nch = 1 if F["form"] != "challenges" else rnd.choice([1, 2, 3])
     default_at = rnd.randrange(nch)
     for c in range(nch):
@@ -934,6 +956,13 @@ def random_file(rnd, types):
             if rnd.random() < 0.5:
                 F["parts"].append(nested)  # a fragment of that part in a second-level part (nested include)
     F["tight"] = bool(F["parts"]) and rnd.random() < 0.25
+    helpers = uses_macro(F)
+    if F["parts"] and not F["tight"] and not helpers and rnd.random() < 0.35:
+        # single-quoted includes: only first-level parts, no helper macros inside
+        F["squote"] = True
+        F["parts"] = [k for k in F["parts"] if k in ("ops", "chals", "corpora")]
+    if F["ops"] and not F["squote"] and rnd.random() < 0.25:
+        F["mac"] = _val(rnd, [7, 4000], NPARAMS, pprob=0.8)
     if rnd.random() < 0.1:
         F["refs"] = rnd.sample(["now", "build_flavor", "serverless_operator"], rnd.randint(1, 2))
     if rnd.random() < 0.5:
@@ -955,6 +984,8 @@ def _used_params(F):
     for k in F["corpora"]:
         used.update(d["count"]["p"] for d in k["docs"])
     used.update(F["refs"])
+    if F["ops"]:
+        used.add(F["mac"]["p"])
     if F["indices"]:
         used.add(F["ibody"]["p"])
     if F["tkind"]:
@@ -1035,7 +1066,8 @@ def _mutate(rnd, F):
 def size(F):
     n = len(F["ops"]) + len(F["indices"]) + len(F["streams"]) + len(F["supN"]) + len(F["supS"]) + len(F["parts"]) + len(F["refs"]) + (F["defect"]["k"] != "none")
     n += sum(len(k["docs"]) + bool(k["tidx"]) + bool(k["tds"]) + (k["iaamd"] != "abs") for k in F["corpora"])
-    n += (F["ibody"] != NOVAL) + bool(F["tkind"])
+    n += (F["ibody"] != NOVAL) + bool(F["tkind"]) + (F["mac"] != NOVAL)
+    n += sum(bool(k["burl"]) + sum(bool(d["burl"]) for d in k["docs"]) for k in F["corpora"])
     n += sum(bool(d["tds"]) + (d["iaamd"] != "abs") for k in F["corpora"] for d in k["docs"])
     for ch in F["chals"]:
         n += ch["dflt"] != "abs"
